@@ -184,9 +184,12 @@ Proof. exact dnn_ok_meaning. Qed.
    server forces "Bob", user "bo" becomes "bob" (the client's first nick) and then "Bobb" (an
    extension of its current one), "BOB" becomes "x" (a nick the client held before) *)
 Definition c17_s (s : list N) : bytes := s.
+(* the client's own NICK lines carry a cloaked host, other than the one of the welcome *)
+Definition c17_cloak : uhost := ([126;117]%N, [99;108;111;97;107;46;101;120]%N).       (* ~u@cloak.ex *)
+Definition c17_cloak2 : bytes := [72;79;83;84;46;69;88;65;77;80;76;69]%N.               (* HOST.EXAMPLE *)
 Definition c17_script : list event :=
-  [EColl; EColl; EWelcome (Some [98;111;98;98]%N); ETrack [98;111]%N; EReq [120]%N; EConfirm;
-   EReq [98;111]%N; EColl; EIgnore; EForce [66;111;98]%N; EOther [98;111]%N [98;111;98]%N; EMe;
+  [EColl; EColl; EWelcome (Some [98;111;98;98]%N) (Some uh_std); ETrack [98;111]%N; EReq [120]%N; EConfirm c17_cloak;
+   EReq [98;111]%N; EColl; EIgnore; EForce [66;111;98]%N (s_user, c17_cloak2); EOther [98;111]%N [98;111;98]%N; EMe;
    EOther [98;111;98]%N [66;111;98;98]%N; ETrack [66;79;66]%N; EOther [66;79;66]%N [120]%N].
 Definition c17_w0 (track : bool) : world := world0 track c17_bob [] [] [[98;111]; [66;79;66]]%N.
 
@@ -216,7 +219,7 @@ Proof. repeat split; vm_compute; reflexivity. Qed.
 (* a NON-conformant server (it refuses the client's OWN current nick after the welcome) makes
    the client's view diverge: the conformance hypothesis of C17_me_tracks_server is needed *)
 Example C17_conformance_needed :
-  let es := [EWelcome None; ERaw [58;115;32;52;51;51;32;98;111;98;32;98;111;98;32;58;120]%N] in   (* ":s 433 bob bob :x" *)
+  let es := [EWelcome None None; ERaw [58;115;32;52;51;51;32;98;111;98;32;98;111;98;32;58;120]%N] in   (* ":s 433 bob bob :x" *)
   conformant default_new_nick (c17_w0 false) es = false
   /\ me_nick_of (w_cli (wrun default_new_nick (c17_w0 false) es)) = Some [98;111;99]%N
   /\ sv_nick (w_srv (wrun default_new_nick (c17_w0 false) es)) = c17_bob.
